@@ -1,11 +1,9 @@
 (* C06 — proofs, part 9: basic facts for the word-level round trip: line
    continuations at the head of a text, names, backquotes. *)
-From Yv Require Import Common.Base C06.Ast C06.Print C06.Lex C06.LexEq C06.ProofsLen
+From Yv Require Import Common.Base C06.Ast C06.Print C06.Lex C06.SpecLex C06.LexEq C06.ProofsLen
   C06.ProofsStop C06.ProofsTilde.
 Local Open Scope N_scope.
 
-(* the text does not start with a line continuation *)
-Definition nolc (z : str) : Prop := skip_lc z = z.
 
 Lemma nolc_nil : nolc [].
 Proof. reflexivity. Qed.
@@ -62,11 +60,11 @@ Qed.
 Lemma lex_name_print n z f :
   forallb is_name_char n = true -> nolc z ->
   match z with c :: _ => is_name_char c = false | [] => True end ->
-  (length n < f)%nat ->
+  (length n <= f)%nat ->
   lex_name f (n ++ z) = (n, z).
 Proof.
   revert f. induction n as [|c n IH]; intros f Hn Hz Hh Hf.
-  - destruct f as [|f]; [cbn in Hf; lia|]. cbn [app lex_name]. rewrite Hz.
+  - destruct f as [|f]; cbn [app lex_name]; rewrite Hz; [reflexivity|].
     destruct z as [|c z']; [reflexivity|]. rewrite Hh. reflexivity.
   - destruct f as [|f]; [cbn in Hf; lia|]. cbn [forallb] in Hn. apply andb_prop in Hn.
     destruct Hn as [Hc Hn]. cbn [app lex_name].
